@@ -238,6 +238,12 @@ pub struct World {
     pub from_xml: Vec<bool>,
 }
 
+/// A failure some other property states as well: a UniqueId that changed although nothing collided is a
+/// broken C12 rule and also a property that was not kept across insert / move / transfer (C10).
+pub fn also_owned_by(key: &str, property: &str) -> bool {
+    property == "C10" && (key == "c12:changed-without-collision" || key == "c12:id-changed-on-untouched")
+}
+
 /// Oracle classes -> owning property.
 pub fn owner_of(key: &str) -> &'static str {
     if key.starts_with("c09") {
